@@ -22,6 +22,12 @@ from core import Failure, Diff, correspond, hx, bits
 LEVEL = "proof"
 SIG_INDEL = "C07/anchored-or-noninternal-indel-window"
 SIG_INSIDE = "C07/anywhere-read-inside-adapter"
+
+
+def inner_finder(a):
+    """the KmerFinder (or mock finder) itself: adapters that search both overlap directions wrap it in ShortReadsPassKmerFinder"""
+    kf = a.kmer_finder
+    return getattr(kf, "kmer_finder", kf)
 SIG_BEYOND = "C07/window-beyond-read"
 SIG_REGULAR = "C07/regular-partial-overlap-indel-window"   # found while building this check: regular adapters are affected too
 SIG_NUL = "C07/nul-in-read-vs-n-wildcard"     # found while building this check (not among the design-phase findings)
@@ -160,7 +166,7 @@ def indel_mutate(rng, s, k):
 
 
 def finder_verdict(cfg, a, read):
-    return a.kmer_finder.kmers_present(read[::-1] if cfg["ty"] == "rightmost" else read)
+    return inner_finder(a).kmers_present(read[::-1] if cfg["ty"] == "rightmost" else read)
 
 
 def overlap_with_insertions(rng, cfg, a, tries=25):
@@ -191,7 +197,7 @@ def overlap_with_insertions(rng, cfg, a, tries=25):
         for _ in range(nins):
             piece.insert(rng.randint(1, len(piece) - 1), rng.choice("ACGT"))
         rd = "".join(piece) + junk if five else junk + "".join(piece)
-        if not hasattr(a.kmer_finder, "positions_and_kmers") or not finder_verdict(cfg, a, rd):
+        if not hasattr(inner_finder(a), "positions_and_kmers") or not finder_verdict(cfg, a, rd):
             break
     return rd
 
@@ -242,7 +248,7 @@ def heap_demo():
     rng = random.Random(1)
     ad = "".join(rng.choice("ACGT") for _ in range(120))
     a = FrontAdapter(ad, max_errors=0.1, min_overlap=3)
-    pk = a.kmer_finder.positions_and_kmers
+    pk = inner_finder(a).positions_and_kmers
     big = [(s, e, ks) for s, e, ks in pk if e is not None and e >= 100]
     if not big:
         return None
@@ -258,7 +264,7 @@ def heap_demo():
         for _ in range(400):
             objs.append(fresh(read))
             objs.append(fresh(nb))
-        vs = [a.kmer_finder.kmers_present(r) for r in objs[0::2]]
+        vs = [inner_finder(a).kmers_present(r) for r in objs[0::2]]
         out[label] = dict(true=sum(vs), false=len(vs) - sum(vs))
     return dict(adapter="FrontAdapter(%r, max_errors=0.1, min_overlap=3)" % ad, read=read, window=list(big[0][:2]),
                 kmer=kmer, verdicts=out, cfg=dict(ty="front", seq=ad, max_errors=0.1, min_overlap=3, read_wildcards=False,
@@ -315,7 +321,13 @@ def kind_line(cfg):
 
 class State:
     def __init__(self):
-        self.present, self.kinds, self.pending = [], [], []
+        self.present, self.kinds, self.pending, self.prefilter = [], [], [], []
+
+
+def prefilter_line(cfg, read):
+    return (f"prefilter {cfg['ty']} {hx(cfg['seq'])} {bits(cfg['max_errors'])} {cfg['min_overlap']} "
+            f"{int(cfg['read_wildcards'])} {int(cfg['adapter_wildcards'])} {int(cfg['indels'])} {hx(read)} "
+            f"{int(bool(cfg.get('force_anywhere')))}")
 
 
 def safedomain_line(cfg, read):
@@ -331,7 +343,7 @@ def one_read(ctx, st, cfg, real, mock, read, correspond_present=True):
     mt_mock = mock.match_to(read)
     sr, sm = gens.show_match(mt_real), gens.show_match(mt_mock)
     ctx.evaluations += 1
-    is_mock = isinstance(real.kmer_finder, A.MockKmerFinder)
+    is_mock = isinstance(inner_finder(real), A.MockKmerFinder)
     if mt_mock is not None:
         ctx.count("match:" + cfg["ty"])
         if mt_mock.errors > 0 and not is_mock:
@@ -342,18 +354,22 @@ def one_read(ctx, st, cfg, real, mock, read, correspond_present=True):
                      if mt_real is None else "prefilter changes the reported match",
                      dict(cfg=cfg, read=read), got=sr, expected=sm,
                      extra=dict(adapter=repr(real),
-                                positions_and_kmers=show_entries(real.kmer_finder.positions_and_kmers)
+                                positions_and_kmers=show_entries(inner_finder(real).positions_and_kmers)
                                 if not is_mock else "mock"))
         # cross-check with the theorem: a lost match inside `safeDomain` contradicts `prefilter_safe_partial`
         st.pending.append((safedomain_line(cfg, read), fl))
     if is_mock or not correspond_present:
         return
     seq_in = read[::-1] if cfg["ty"] == "rightmost" else read
-    verdict = real.kmer_finder.kmers_present(seq_in)
+    verdict = inner_finder(real).kmers_present(seq_in)
+    # the verdict match_to acts on: short reads of adapters that search both overlap directions do not reach the KmerFinder
+    st.prefilter.append((prefilter_line(cfg, read), str(real.kmer_finder.kmers_present(seq_in))))
+    if real.kmer_finder is not inner_finder(real) and len(seq_in) < real.kmer_finder.min_length:
+        ctx.count("short-read-bypasses-finder")
     if not verdict:
         ctx.count("prefilter-says-no")
         ctx.nontriv(("F", cfg["ty"], cfg["seq"], cfg["max_errors"], cfg["min_overlap"], cfg["indels"], read))
-    if any(e is not None and e > len(seq_in) for s, e, ks in real.kmer_finder.positions_and_kmers):
+    if any(e is not None and e > len(seq_in) for s, e, ks in inner_finder(real).positions_and_kmers):
         ctx.count("5'-window-longer-than-read")
     st.present.append((present_line(cfg, seq_in, "-"), str(verdict)))
 
@@ -362,13 +378,14 @@ def flush(ctx, st):
     from core import run_driver
     correspond(ctx, "finderkind", st.kinds)
     correspond(ctx, "kmerspresent", st.present)
+    correspond(ctx, "prefilter", st.prefilter)
     if st.pending:
         outs = run_driver([l for l, _ in st.pending])
         for (line, fl), dom in zip(st.pending, outs):
             if dom == "True":
                 fl.extra["safeDomain"] = True
                 fl.extra["signature_by_shape"] = fl.signature
-                fl.what += " — although the pair lies in safeDomain, where prefilter_safe_partial proves equality"
+                fl.what += " — although the read is ASCII without NUL, where prefilter_safe_partial proves equality"
                 fl.signature = SIG_OTHER
             elif dom != "False":
                 fl.extra["safeDomain"] = dom
@@ -378,7 +395,7 @@ def flush(ctx, st):
             ctx.count("lost-match:" + fl.signature)
             ctx.failures.append(fl)
         ctx.corr_ops["safedomain-of-failures"] = ctx.corr_ops.get("safedomain-of-failures", 0) + len(st.pending)
-    st.present, st.kinds, st.pending = [], [], []
+    st.present, st.kinds, st.pending, st.prefilter = [], [], [], []
 
 
 def random_cases(ctx, ncfg, reads_per_cfg):
@@ -395,7 +412,7 @@ def random_cases(ctx, ncfg, reads_per_cfg):
             ctx.count("skipped:rate>=1")
             continue
         mock, _ = gens.make_adapter(cfg, mock_kmer=True)
-        is_mock = isinstance(real.kmer_finder, A.MockKmerFinder)
+        is_mock = isinstance(inner_finder(real), A.MockKmerFinder)
         st.kinds.append((kind_line(cfg), "mock" if is_mock else "masks"))
         ctx.count(("cfg:%s:indels=%d" % (cfg["ty"], cfg["indels"])) + (":mock" if is_mock else ""))
         for _ in range(reads_per_cfg):
@@ -423,7 +440,7 @@ def small_scope(ctx, max_adapter, max_read, rates, alphabet="ACG", sample_every=
                                    adapter_wildcards=True, indels=indels, force_anywhere=False)
                         real, err = gens.make_adapter(cfg, mock_kmer=False)
                         mock, _ = gens.make_adapter(cfg, mock_kmer=True)
-                        st.kinds.append((kind_line(cfg), "mock" if type(real.kmer_finder).__name__ == "MockKmerFinder" else "masks"))
+                        st.kinds.append((kind_line(cfg), "mock" if type(inner_finder(real)).__name__ == "MockKmerFinder" else "masks"))
                         for read in reads:
                             k += 1
                             if k % sample_every == 0:
@@ -480,8 +497,8 @@ def extended_search(ctx):
 
 
 def extra_coverage(ctx):
-    return dict(known_finding_classes=[SIG_INSIDE, SIG_NUL], fixed_classes_kept_as_regression_tests=[SIG_INDEL, SIG_BEYOND, SIG_REGULAR],
-                note="every lost match is cross-checked against Kmer.safeDomain (driver op safedomain): a lost match inside the domain of "
+    return dict(known_finding_classes=[SIG_NUL], fixed_classes_kept_as_regression_tests=[SIG_INDEL, SIG_BEYOND, SIG_REGULAR, SIG_INSIDE],
+                note="every lost match is cross-checked against Kmer.asciiNoNul, the domain of prefilter_safe_partial (driver op safedomain): a lost match inside the domain of "
                      "prefilter_safe_partial is reported as C07/other")
 
 
